@@ -350,7 +350,7 @@ where
 
           // Then, if there is still room, top up from the core_pipe_manager
           let start_len = outgoing_batch.len();
-          if start_len < max_count && total_bytes < logical_max_bytes {
+          if start_len < max_count && total_bytes < logical_max_bytes && core_carryover.is_empty() {
             // Dynamically calculate actual remaining slots based on the average size of current messages
             let avg_size = if start_len > 0 {
               total_bytes / start_len
